@@ -1033,6 +1033,14 @@ class Folder:
                                                              'partition', 'rpartition', 'replace', 'join', 'count', 'splitlines', 'hex', 'lower', 'upper', 'isdigit',
                                                              'extend', 'append', 'clear', 'pop', 'removeprefix', 'removesuffix') and hasattr(obj, name):
             return ('strmethod', obj, name)
+        if isinstance(obj, (dict, list, tuple, str, set, frozenset)) and name in ('__getitem__', '__contains__', '__len__', '__iter__') and not (isinstance(obj, tuple) and obj and isinstance(obj[0], str) and obj[0] in ('lambda', 'closure', 'func', 'pyfunc', 'builtin', 'strmethod', 'pymodule', 'extern')):
+            if name == '__getitem__':
+                return ('pyfunc', lambda k_, _o=obj: self._getitem(_o, k_))
+            if name == '__contains__':
+                return ('pyfunc', lambda k_, _o=obj: self._truth(self._cmp(ast.In(), k_, _o)))
+            if name == '__len__':
+                return ('pyfunc', lambda _o=obj: len(_o))
+            return ('pyfunc', lambda _o=obj: LazyIter(iter(self._seq(_o))))
         if isinstance(obj, dict) and name in ('get', 'items', 'keys', 'values', 'update', 'pop', 'setdefault', 'copy', 'clear', 'popitem'):
             return ('strmethod', obj, name)
         if isinstance(obj, tuple) and len(obj) == 2 and obj[0] == 'pymodule' and obj[1] == 're':
@@ -1053,6 +1061,8 @@ class Folder:
             return ('pyfunc', obj[1]._sa_attrs[name])
         if isinstance(obj, tuple) and len(obj) == 2 and obj[0] == 'pymodule' and obj[1] == 'operator' and name in ('attrgetter', 'itemgetter', 'methodcaller'):
             return self._operator_getter(name)
+        if isinstance(obj, tuple) and len(obj) == 2 and obj[0] == 'pymodule' and obj[1] == 'operator':
+            return self._operator_fn(name)
         if isinstance(obj, tuple) and len(obj) == 2 and obj[0] == 'pymodule' and obj[1].split('.')[0] in PURE_MODULES:
             import importlib
             try:
@@ -1076,6 +1086,24 @@ class Folder:
                     raise Unsupported('json.dumps of an object of the subject / with a default hook')
                 return _json.dumps(o, *a, **k)
             return ('pyfunc', dumps_ if name == 'dumps' else _json.loads)
+        if isinstance(obj, tuple) and len(obj) == 2 and obj[0] == 'pymodule' and obj[1] == 'json' and name == 'JSONEncoder':
+            fo_ = self
+
+            class _Encoder:
+                """json.JSONEncoder(**options).encode(o) == json.dumps(o, **options)"""
+                _sa_native = True
+
+                def __init__(self, **k):
+                    if k.get('default') is not None:
+                        raise Unsupported('json.JSONEncoder with a default hook')
+                    self.k = k
+
+                def encode(self, o):
+                    st_ = fo_.stubs.get('json.dumps')
+                    if st_ is not None:
+                        return st_(o, **self.k)
+                    return fo_._apply(fo_._attr(('pymodule', 'json'), 'dumps'), [o], dict(self.k))
+            return ('pyfunc', lambda **k: _Encoder(**k))
         if isinstance(obj, tuple) and len(obj) == 2 and obj[0] == 'pymodule' and obj[1] == 'copy' and name in ('copy', 'deepcopy') and not self.stubs.get('copy.' + name):
             def copy_(o, memo=None, _deep=(name == 'deepcopy')):
                 if isinstance(o, DV):
@@ -1200,6 +1228,9 @@ class Folder:
         if key in cache:
             return cache[key]
         env = {}
+        if name in getattr(ci, 'late', ()):
+            cache[key] = self._eval(ci.assigns[name], {}, ci.module, None)       # bound at module level: module scope, no class-body names
+            return cache[key]
         for n in ci.order:
             if n == name:
                 break
@@ -2163,6 +2194,45 @@ class Folder:
         sub = ast.Subscript(value=ast.Name(id='b', ctx=ast.Load()), slice=ast.Name(id='i', ctx=ast.Load()), ctx=ast.Load())
         return self._eval(sub, {'b': base, 'i': idx}, self._cur_mod, None)
 
+    _OP_CMP = {'is_': ast.Is, 'is_not': ast.IsNot, 'eq': ast.Eq, 'ne': ast.NotEq, 'lt': ast.Lt, 'le': ast.LtE, 'gt': ast.Gt, 'ge': ast.GtE}
+    _OP_BIN = {'add': ast.Add, 'sub': ast.Sub, 'mul': ast.Mult, 'floordiv': ast.FloorDiv, 'mod': ast.Mod, 'truediv': ast.Div, 'and_': ast.BitAnd, 'or_': ast.BitOr,
+               'xor': ast.BitXor, 'pow': ast.Pow, 'lshift': ast.LShift, 'rshift': ast.RShift, 'concat': ast.Add}
+
+    def _operator_fn(self, name: str):
+        """A function of the operator module applied to values of the subject: the operator itself, with the subject's semantics (identity
+        and equality of enum members and objects, their own dunder methods), not Python's on the analyser's representation."""
+        base = name.strip('_') if name.startswith('__') and name.endswith('__') else name
+        base = {'is': 'is_', 'and': 'and_', 'or': 'or_', 'not': 'not_'}.get(base, base)
+        if base in self._OP_CMP:
+            return ('pyfunc', lambda a, b: self._cmp(self._OP_CMP[base](), a, b))
+        if base in self._OP_BIN:
+            return ('pyfunc', lambda a, b: self._binop(self._OP_BIN[base](), a, b))
+        if base == 'contains':
+            return ('pyfunc', lambda a, b: self._cmp(ast.In(), b, a))
+        if base == 'not_':
+            return ('pyfunc', lambda a: not self._truth(a))
+        if base == 'truth':
+            return ('pyfunc', lambda a: self._truth(a))
+        if base == 'getitem':
+            return ('pyfunc', lambda a, b: self._getitem(a, b))
+        if base in ('neg', 'pos', 'inv', 'invert'):
+            opn = {'neg': ast.USub, 'pos': ast.UAdd, 'inv': ast.Invert, 'invert': ast.Invert}[base]
+            return ('pyfunc', lambda a: self._eval(ast.UnaryOp(op=opn(), operand=ast.Name(id='a', ctx=ast.Load())), {'a': a}, self._cur_mod, None))
+        if base == 'index':
+            return ('pyfunc', lambda a: self._int(a))
+        if base == 'abs':
+            return ('pyfunc', lambda a: self._apply(('builtin', 'abs'), [a], {}))
+        if base in ('countOf', 'indexOf'):
+            def count_index(a, b):
+                hits = [i for i, x in enumerate(self._iterate(self._seq(a))) if self._same_or_equal(x, b)]
+                if base == 'countOf':
+                    return len(hits)
+                if not hits:
+                    raise FoldRaise('ValueError', 'sequence.index(x): x not in sequence')
+                return hits[0]
+            return ('pyfunc', count_index)
+        raise Unsupported(f'operator.{name}')
+
     def _operator_getter(self, kind: str):
         """operator.attrgetter / itemgetter / methodcaller over values of the subject (attribute and item access through the folder)."""
         def attr_path(o, dotted):
@@ -2236,6 +2306,8 @@ class Folder:
                 return self._stdlib_hof(r[1], r[2])
             if r[0] == 'external' and r[1] == 'operator' and r[2] in ('attrgetter', 'itemgetter', 'methodcaller'):
                 return self._operator_getter(r[2])
+            if r[0] == 'external' and r[1] == 'operator':
+                return self._operator_fn(r[2])
             if r[0] == 'external' and r[1].split('.')[0] in PURE_MODULES:
                 import importlib
                 try:
@@ -2740,7 +2812,7 @@ class Folder:
             for pn, dflt in zip(reversed(names_), reversed(e.args.defaults)):
                 lenv[pn] = self._eval(dflt, env, mod, ci)        # default values are evaluated when the lambda is created
             return ('lambda', e, lenv, mod, ci)
-        if isinstance(e, (ast.ListComp, ast.SetComp, ast.GeneratorExp, ast.DictComp)) and self.allow_loops:
+        if isinstance(e, (ast.ListComp, ast.SetComp, ast.GeneratorExp, ast.DictComp)):
             def source(g, env2):
                 it = self._eval(g.iter, env2, mod, ci)
                 if isinstance(it, ClsRef) and it.cls.is_enum:
